@@ -3,11 +3,11 @@ package main
 // JSON-in-annotations model (DESIGN.md §2.5).
 
 import (
-	"strconv"
 	"bytes"
 	"encoding/json"
 	"fmt"
 	"go/types"
+	"strconv"
 	"strings"
 )
 
@@ -105,6 +105,61 @@ func parseJSONText(text string) (interface{}, error) {
 	return v, nil
 }
 
+// jsonGetNode walks a JSON tree of the value model.
+func (ex *Exec) jsonGetNode(n *JNode, path []string) Value {
+	for _, p := range path {
+		if n.kind == "obj" {
+			found := false
+			for i, k := range n.keyTerms {
+				if k.op == "c" && k.s == p {
+					n = n.vals[i]
+					found = true
+					break
+				}
+			}
+			if !found {
+				return TupleV{mkStr(""), tFalse}
+			}
+			continue
+		}
+		if n.kind == "arr" {
+			var i int
+			if _, err := fmt.Sscanf(p, "%d", &i); err != nil || i < 0 || i >= len(n.vals) {
+				return TupleV{mkStr(""), tFalse}
+			}
+			n = n.vals[i]
+			continue
+		}
+		return TupleV{mkStr(""), tFalse}
+	}
+	switch n.kind {
+	case "intstr":
+		sv := n.vals[0].raw.(StructV)
+		return TupleV{mkIte(mkEq(asTerm(sv.fields[0]), mkInt(0)), mkFromInt(asTerm(sv.fields[1])), asTerm(sv.fields[2])), tTrue}
+	case "str":
+		return TupleV{n.scalar, tTrue}
+	case "num":
+		return TupleV{mkFromInt(n.scalar), tTrue}
+	case "float":
+		if fv, ok := n.raw.(FloatV); ok {
+			if it, ok := fv.intTerm(); ok {
+				return TupleV{mkFromInt(it), tTrue}
+			}
+			if b, err := json.Marshal(fv.f); err == nil {
+				return TupleV{mkStr(string(b)), tTrue}
+			}
+			return TupleV{mkStr(strconv.FormatFloat(fv.f, 'g', -1, 64)), tTrue}
+		}
+	case "bool":
+		return TupleV{mkIte(n.scalar, mkStr("true"), mkStr("false")), tTrue}
+	case "null":
+		return TupleV{mkStr("null"), tTrue}
+	case "obj":
+		return TupleV{mkStr("{...}"), tTrue}
+	}
+	return TupleV{mkStr("[...]"), tTrue}
+}
+
 // icJSONGet implements verifrt.JSONGet(doc, path...) (string, bool).
 func icJSONGet(ex *Exec, fr *frame, fn *ssaFunction, args []Value, pos tokenPos) Value {
 	doc := asTerm(args[0])
@@ -113,58 +168,7 @@ func icJSONGet(ex *Exec, fr *frame, fn *ssaFunction, args []Value, pos tokenPos)
 		path = append(path, constStr(ex, p, "JSONGet path element"))
 	}
 	if tok, ok := ex.jsonTok[doc]; ok {
-		n := tok
-		for _, p := range path {
-			if n.kind == "obj" {
-				found := false
-				for i, k := range n.keyTerms {
-					if k.op == "c" && k.s == p {
-						n = n.vals[i]
-						found = true
-						break
-					}
-				}
-				if !found {
-					return TupleV{mkStr(""), tFalse}
-				}
-				continue
-			}
-			if n.kind == "arr" {
-				var i int
-				if _, err := fmt.Sscanf(p, "%d", &i); err != nil || i < 0 || i >= len(n.vals) {
-					return TupleV{mkStr(""), tFalse}
-				}
-				n = n.vals[i]
-				continue
-			}
-			return TupleV{mkStr(""), tFalse}
-		}
-		switch n.kind {
-		case "intstr":
-			sv := n.vals[0].raw.(StructV)
-			return TupleV{mkIte(mkEq(asTerm(sv.fields[0]), mkInt(0)), mkFromInt(asTerm(sv.fields[1])), asTerm(sv.fields[2])), tTrue}
-		case "str":
-			return TupleV{n.scalar, tTrue}
-		case "num":
-			return TupleV{mkFromInt(n.scalar), tTrue}
-		case "float":
-			if fv, ok := n.raw.(FloatV); ok {
-				if it, ok := fv.intTerm(); ok {
-					return TupleV{mkFromInt(it), tTrue}
-				}
-				if b, err := json.Marshal(fv.f); err == nil {
-					return TupleV{mkStr(string(b)), tTrue}
-				}
-				return TupleV{mkStr(strconv.FormatFloat(fv.f, 'g', -1, 64)), tTrue}
-			}
-		case "bool":
-			return TupleV{mkIte(n.scalar, mkStr("true"), mkStr("false")), tTrue}
-		case "null":
-			return TupleV{mkStr("null"), tTrue}
-		case "obj":
-			return TupleV{mkStr("{...}"), tTrue}
-		}
-		return TupleV{mkStr("[...]"), tTrue}
+		return ex.jsonGetNode(tok, path)
 	}
 	text, holes := jsonSkeleton(doc)
 	v, err := parseJSONText(text)
@@ -174,7 +178,16 @@ func icJSONGet(ex *Exec, fr *frame, fn *ssaFunction, args []Value, pos tokenPos)
 		}
 		return TupleV{mkStr(""), tFalse}
 	}
-	for _, p := range path {
+	for pi, p := range path {
+		if str, ok := v.(string); ok && strings.HasPrefix(str, "@@B") && strings.HasSuffix(str, "@@") {
+			// a bare hole in value position: when it is a JSON token of the value model, continue inside its tree
+			var idx int
+			if _, err := fmt.Sscanf(str[3:len(str)-2], "%d", &idx); err == nil && idx < len(holes) {
+				if tok, ok := ex.jsonTok[holes[idx]]; ok {
+					return ex.jsonGetNode(tok, path[pi:])
+				}
+			}
+		}
 		switch x := v.(type) {
 		case map[string]interface{}:
 			y, ok := x[p]
